@@ -150,6 +150,10 @@ def _ledger(sb):
         flags.append(("session-dir-left", sess[:3]))
     if dbf:
         flags.append(("db-file-left", dbf[:3]))
+    # anything else the run created under its temporary directory (whatever it is called)
+    other = [p for p in left if p not in sess and p not in dbf and not any(p.startswith(x + os.sep) for x in sess)]
+    if other:
+        flags.append(("temp-entry-left", other[:3]))
     fds = sb.open_fds()
     if fds:
         flags.append(("fd-left", fds[:3]))
@@ -163,10 +167,14 @@ def _ledger(sb):
             except Exception:
                 pass
     # clear the ledger for the next step: what is left is attributed to this step only
-    for p in sess:
-        import shutil
+    import shutil
 
-        shutil.rmtree(os.path.join(sb.tmp, p), ignore_errors=True)
+    for p in sess + other:
+        q = os.path.join(sb.tmp, p)
+        if os.path.isdir(q):
+            shutil.rmtree(q, ignore_errors=True)
+        elif os.path.exists(q):
+            os.unlink(q)
     return flags
 
 
